@@ -83,6 +83,51 @@ class Scheduler:
             i = len(en) - 1
         elif self.policy == 'scripted':
             i = 0
+        elif self.policy == 'burst':
+            # the source produces a few items at once and is silent in between, work settles mostly in order of creation, the
+            # consumer is either eager (pulls whenever it can) or lazy (pulls only when nothing else can move)
+            b = getattr(self, '_burst', None)
+            if b is None:
+                b = self._burst = [self.rng.randint(1, 3)]
+
+            def cls(l):
+                return '@next' if '@next' in l else ('pull#' if l.startswith('pull#') else 'other')
+            by = {}
+            for k, (_, l) in enumerate(en):
+                by.setdefault(cls(l), []).append(k)
+            eager = getattr(self, '_eager', None)
+            if eager is None:
+                eager = self._eager = self.rng.random() < 0.6       # the consumer pulls as soon as it can / only when idle
+            if eager and 'pull#' in by:
+                i = by['pull#'][0]
+                if self.step > 1:
+                    b[0] = self.rng.choice([0, 0, 1, 2])
+            elif b[0] > 0 and '@next' in by:
+                b[0] -= 1
+                i = by['@next'][0]
+            elif 'other' in by:
+                i = by['other'][0] if self.rng.random() < 0.7 else self.rng.choice(by['other'])     # mostly in order of creation
+            elif 'pull#' in by:
+                i = by['pull#'][0]
+                b[0] = self.rng.choice([0, 0, 1, 2])
+            else:
+                i = self.rng.randrange(len(en))
+        elif self.policy == 'phases':
+            # bursty: for a few steps one class of actions (source steps, consumer pulls, everything else) is preferred or starved
+            ph = getattr(self, '_phase', None)
+            if ph is None or ph[2] <= 0:
+                ph = self._phase = [self.rng.choice(['@next', 'pull#', 'other']), self.rng.random() < 0.5, self.rng.randint(1, 4)]
+            ph[2] -= 1
+
+            def cls(l):
+                return '@next' if '@next' in l else ('pull#' if l.startswith('pull#') else 'other')
+            preferred = [k for k, (_, l) in enumerate(en) if (cls(l) == ph[0]) != ph[1]]
+            i = self.rng.choice(preferred) if preferred else self.rng.randrange(len(en))
+        elif self.policy in ('slow-source', 'slow-consumer'):
+            # biased random: a source iterator (resp. the consumer) only moves when nothing else can
+            key = '@next' if self.policy == 'slow-source' else 'pull#'
+            preferred = [k for k, (_, l) in enumerate(en) if key not in l]
+            i = self.rng.choice(preferred) if preferred else self.rng.randrange(len(en))
         else:
             i = self.rng.randrange(len(en))
         self.branching.append(len(en))
